@@ -63,6 +63,9 @@ func (w *World) DepsOf(r int) []DepEdge {
 	}
 	var out []DepEdge
 	for _, d := range Deps[r][g.Variant] {
+		if d.Target < -1 {
+			continue // built-in injectable: always available, not a registration
+		}
 		e := DepEdge{Spec: d, Id: depIdent(d), Group: d.Form == FormGroup, Optional: d.Form == FormOptional}
 		e.Targets = w.Providers(e.Id)
 		if !e.Group && len(e.Targets) == 0 && !e.Optional {
@@ -199,6 +202,56 @@ func (w *World) MultiOutput(r int) bool {
 	switch w.Regs[r].Form {
 	case IdMulti, IdResObj, IdResObj2, IdMultiNamed, IdMultiGroup:
 		return true
+	}
+	return false
+}
+
+// Eager: the registrations whose constructors run during Build - singletons,
+// scoped initializers (run for the provider's root scope) and everything those
+// resolve, transitively.
+func (w *World) Eager() int {
+	// a failure behind an optional field is swallowed, so only required
+	// edges make Build notice a missing dependency further down
+	var adj [NS]int
+	for r := 0; r < w.N; r++ {
+		if !w.Regs[r].Present {
+			continue
+		}
+		for _, e := range w.DepsOf(r) {
+			if e.Optional {
+				continue
+			}
+			for _, t := range e.Targets {
+				adj[r] |= 1 << t
+			}
+		}
+	}
+	cl := closure(adj, w.N)
+	e := 0
+	for r := 0; r < w.N; r++ {
+		if !w.Regs[r].Present {
+			continue
+		}
+		if w.Regs[r].Life == LSingleton || (w.IsVoid(r) && w.Regs[r].Life == LScoped) {
+			e |= 1<<r | cl[r]
+		}
+	}
+	return e
+}
+
+// LazyMissing: some registration that Build does not run has an unregistered
+// required dependency.
+func (w *World) LazyMissing() bool {
+	e := w.Eager()
+	for r := 0; r < w.N; r++ {
+		if !w.Regs[r].Present || e&(1<<r) != 0 {
+			continue
+		}
+		for _, d := range w.DepsOf(r) {
+			if d.Missing {
+				return true
+			}
+		}
 	}
 	return false
 }
